@@ -14,25 +14,25 @@ import (
 )
 
 func init() {
-	register(&Rule{ID: "E-NODESETS", Props: []string{"C12", "C17", "C01"}, Floor: 2,
+	register(&Rule{ID: "E-NODESETS", Props: []string{"C12", "C17", "C01"}, Floor: 1,
 		Doc: "isSliceNode names exactly the node types whose case calls slice/sliceStep and isProjectNode exactly those whose case calls a projecting helper; the string bypass of the array projection (right-hand side applied to the whole value) is guarded by a condition on the node's left operand, not only on the data",
 		Run: ruleENodeSets})
-	register(&Rule{ID: "E-PRUNE", Props: []string{"C01", "C17"}, Floor: 8,
+	register(&Rule{ID: "E-PRUNE", Props: []string{"C01", "C17"}, Floor: 3,
 		Doc: "every projection producer (projectArray, filterAndProjectArray, flattenAndProjectArray, projectObject, objectValues, filter, flatten, pruneArray) adds an element to its result only under a dominating test that the element is not null",
 		Run: ruleEPrune})
-	register(&Rule{ID: "E-SELECTOR-NULL", Props: []string{"C01"}, Floor: 10,
+	register(&Rule{ID: "E-SELECTOR-NULL", Props: []string{"C01"}, Floor: 3,
 		Doc: "selectors and projection helpers return null (and no error) when their subject has the wrong type: the failure edge of the container assertion returns the nil constant",
 		Run: ruleESelectorNull})
-	register(&Rule{ID: "E-EQUALITY", Props: []string{"C20"}, Floor: 4,
+	register(&Rule{ID: "E-EQUALITY", Props: []string{"C20"}, Floor: 1,
 		Doc: "!= is the negation of the same equality helper as ==; contains tests membership with that helper; in equal the array and object loops are dominated by a length-equality test, the object loop tests key presence with a comma-ok lookup before comparing values, and different JSON types never compare equal by falling through",
 		Run: ruleEEquality})
 	register(&Rule{ID: "E-TRUTHY", Props: []string{"C20", "C14"}, Floor: 6,
 		Doc: "isTrue implements the specification's truth table (null/false/empty string/array/object are false-like, every number of every kind and every other value true-like) and !, &&, ||, filters and filter projections decide truth only by calling isTrue",
 		Run: ruleETruthy})
-	register(&Rule{ID: "E-RESULT-TYPES", Props: []string{"C18"}, Floor: 100,
+	register(&Rule{ID: "E-RESULT-TYPES", Props: []string{"C18"}, Floor: 46,
 		Doc: "every value the evaluator converts to `any` has one of the JSON carrier types: bool, string, []any, map[string]any or one of the 14 numeric kinds; strings are never re-typed as json.Number",
 		Run: ruleEResultTypes})
-	register(&Rule{ID: "P-CASE-SIBLINGS", Props: []string{"C12", "C17", "C01"}, Floor: 2,
+	register(&Rule{ID: "P-CASE-SIBLINGS", Props: []string{"C12", "C17", "C01"}, Floor: 1,
 		Doc: "AST nodes of one type that are built under the same token in different parser functions (infix form and prefix form of one construct) set the same fields",
 		Run: rulePCaseSiblings})
 }
